@@ -1044,7 +1044,12 @@ class OdeSystem(object):
                         self.counter -= 1
 
                         sol_tuple = (self.__sol, prev_time, next_time)
-                        active_events, roots, end_int, evs = handle_events(sol_tuple, events, self.constants, direction, is_terminal, (requires_dstate,))
+                        try:
+                            active_events, roots, end_int, evs = handle_events(sol_tuple, events, self.constants, direction, is_terminal, (requires_dstate,))
+                        except BaseException:
+                            # the step is not recorded: its interpolant goes with it
+                            self.__sol.remove_interpolant(-1 if dTime >= 0 else 0)
+                            raise
 
                         if self.counter + len(roots) + 1 >= len(self.__y):
                             total_steps = self.__alloc_space_steps(tf - dTime) + 1 + len(roots)
